@@ -657,6 +657,15 @@ func ruleW2(c *Ctx) {
 			c.trivial(key, pos, "map created in this function")
 			continue
 		}
+		if freshViaField(fc, s.fn, tr) {
+			c.trivial(key, pos, "map created in this function and held in a field of an object created here")
+			continue
+		}
+		// a private helper that fills the map it is given: judged at its call sites
+		if w2HelperOK(c.P, fc, outermost(s.fn), bases, 0) {
+			c.ok(key, pos, "private helper: every call site passes a map created there, or is a named API contract")
+			continue
+		}
 		if r, ok := w2Exceptions[fnName(outermost(s.fn))]; ok {
 			c.except(key, pos, r)
 			continue
@@ -940,4 +949,68 @@ func ruleF5(c *Ctx) {
 	if n == 0 {
 		c.anchorFail("carriers %v exist but no holder was found", carriers)
 	}
+}
+
+// w2HelperOK: the written map is a parameter of an unexported, never address-taken function, and every
+// call site passes a fresh map or lies in a function with a documented contract (w2Exceptions).
+func w2HelperOK(p *Prog, fc *freshCtx, fn *ssa.Function, roots []base, depth int) bool {
+	if depth > 2 || len(roots) == 0 || fn.Object() == nil || fn.Object().Exported() {
+		return false
+	}
+	var idxs []int
+	for _, b := range roots {
+		prm, ok := b.v.(*ssa.Parameter)
+		if !ok || prm.Parent() != fn || b.throughPtr {
+			return false
+		}
+		for i, q := range fn.Params {
+			if q == prm {
+				idxs = append(idxs, i)
+			}
+		}
+	}
+	n := 0
+	okAll := true
+	for _, g := range p.Funcs {
+		eachInstr(g, func(in ssa.Instruction) {
+			for _, op := range in.Operands(nil) {
+				if f, ok := (*op).(*ssa.Function); ok && f == fn {
+					if ci, ok := in.(ssa.CallInstruction); !ok || ci.Common().Value != f {
+						okAll = false
+					}
+				}
+			}
+			ci, ok := in.(ssa.CallInstruction)
+			if !ok || ci.Common().StaticCallee() != fn {
+				return
+			}
+			n++
+			for _, i := range idxs {
+				if i >= len(ci.Common().Args) {
+					okAll = false
+					continue
+				}
+				arg := ci.Common().Args[i]
+				tr := traceAddr(arg)
+				bs := resolveBases(g, tr.bases)
+				fresh := len(bs) > 0 && len(tr.fields) == 0
+				for _, b := range bs {
+					if b.throughPtr || !isFreshValue(fc, b.v) {
+						fresh = false
+					}
+				}
+				if fresh {
+					continue
+				}
+				if _, ok := w2Exceptions[fnName(outermost(g))]; ok {
+					continue
+				}
+				if w2HelperOK(p, fc, outermost(g), bs, depth+1) {
+					continue
+				}
+				okAll = false
+			}
+		})
+	}
+	return n > 0 && okAll
 }
